@@ -168,12 +168,14 @@ Qed.
 Lemma wp_run {R} (c : cmd R) (Q : out R -> mem -> Prop) m : wp c Q m -> Q (fst (run c m)) (snd (run c m)).
 Proof. unfold wp. destruct (run c m). auto. Qed.
 
-Lemma wf_world0 st orc : Forall Valid st -> WF (world0 st orc).
+Lemma wf_world0x st orc ex : Forall Valid st -> WF (world0x st orc ex).
 Proof.
-  intros H. split; cbn [world0 pool wmem mem0 heap statics]; auto.
+  intros H. split; cbn [world0x pool wmem mem0x heap statics]; auto.
   - intros b. destruct b; reflexivity.
   - intros i r Hi. destruct i; discriminate.
 Qed.
+Lemma wf_world0 st orc : Forall Valid st -> WF (world0 st orc).
+Proof. apply wf_world0x. Qed.
 
 (* the slot is emptied: its handle was replaced by one naming no buffer, which is then forgotten *)
 Lemma wf_clear_slot w i r m' r' :
